@@ -131,7 +131,7 @@ def _var_len_bytes(prefix, zc):
                      st.integers(0, hi))
 
 
-BYTE_SHAPES = st.sampled_from(["rand", "zeros", "text0", "text", "badutf0", "nulmid0", "dblnul"])
+BYTE_SHAPES = st.sampled_from(["rand", "zeros", "text0", "text", "badutf0", "nulmid0", "dblnul", "bom0"])
 
 
 @st.composite
@@ -149,6 +149,9 @@ def _var_bytes(draw, n, kind):
         return asc
     if shape == "text0":
         return asc[:-1] + b"\x00"
+    if shape == "bom0":
+        # valid, terminated text that starts with a byte-order mark (three bytes that are part of the value)
+        return (b"\xef\xbb\xbf" + asc)[:n - 1] + b"\x00" if n >= 4 else asc[:-1] + b"\x00"
     if shape == "badutf0":
         return (b"\xfc" + asc)[:n - 1] + b"\x00"
     if shape == "nulmid0":
